@@ -206,7 +206,7 @@ pub fn gen_params(rng: &mut Rng, thorough: bool) -> FriParams {
             3 => *rng.pick(&heights) as u64 + 1,
             _ => rng.range(0, m as u64 + 2),
         };
-        return FriParams { steps, lb, c, n_friendly, hash };
+        return FriParams { steps, lb, c, n_friendly, hash, extra_height: 0 };
     }
 }
 
